@@ -183,6 +183,7 @@ type c19HTTPCase struct {
 	VerifyErr bool     `json:"verify_err"`
 	Allow     []string `json:"allow"`
 	AllowNil  bool     `json:"allow_nil"`
+	Method    string   `json:"method,omitempty"` // HTTP method ("" = POST): the handler's duties do not depend on it
 }
 
 func runC19HTTP(c c19HTTPCase) *Violation {
@@ -217,7 +218,11 @@ func runC19HTTP(c c19HTTPCase) *Violation {
 	if c.Query != nil {
 		target += "?token=" + url.QueryEscape(*c.Query)
 	}
-	req := httptest.NewRequest("POST", target, strings.NewReader("{}"))
+	method := c.Method
+	if method == "" {
+		method = "POST"
+	}
+	req := httptest.NewRequest(method, target, strings.NewReader("{}"))
 	req.Header.Set("Content-Type", "application/json")
 	if c.Header != nil {
 		req.Header["Authorization"] = []string{*c.Header}
@@ -592,9 +597,9 @@ func runC19Concurrent(c c19Concurrent) *Violation {
 }
 
 func TestC19(t *testing.T) {
-	rec := NewRec("C19", "proxy cases: exhaustive (caller set x default set x attached x required x shape) over a 3-permission universe plus generated lists with duplicates/foreign/empty permissions; HTTP cases: header form x query form x verifier outcome; histories of 2-8 requests on one handler whose verifier changes its verdict for a token between requests (revoked, re-scoped, re-issued). Non-trivial = the effective set is non-empty and differs from the set that was NOT chosen (attached vs defaults disagree on the verdict), or an HTTP case carrying a token; distinct by descriptor hash")
+	rec := NewRec("C19", "proxy cases: exhaustive (caller set x default set x attached x required x shape) over a 3-permission universe plus generated lists with duplicates/foreign/empty permissions; HTTP cases: header form x query form x verifier outcome x HTTP method {POST, GET, OPTIONS, PUT, HEAD, DELETE}; histories of 2-8 requests on one handler whose verifier changes its verdict for a token between requests (revoked, re-scoped, re-issued). Non-trivial = the effective set is non-empty and differs from the set that was NOT chosen (attached vs defaults disagree on the verdict), or an HTTP case carrying a token; distinct by descriptor hash")
 	defer rec.Finish(t)
-	rec.RequireClass("sequence_verdict_changes", "concurrent_requests", "proxy_denied", "proxy_allowed", "attached_empty", "http_malformed", "http_rejected", "http_query_token", "http_both")
+	rec.RequireClass("http_method_OPTIONS", "sequence_verdict_changes", "concurrent_requests", "proxy_denied", "proxy_allowed", "attached_empty", "http_malformed", "http_rejected", "http_query_token", "http_both")
 
 	proxyClasses := func(c c19Case) (bool, []string) {
 		req := string(c19Universe[c.Required])
@@ -661,6 +666,14 @@ func TestC19(t *testing.T) {
 							c.Allow = maskSet(am)
 						}
 						rec.Run(t, c, (h != nil && *h != "") || (q != nil && *q != ""), httpClasses(c), func() *Violation { return runC19HTTP(c) })
+						if am == 0 || am == 5 {
+							// the same request under other HTTP methods
+							for _, m := range []string{"GET", "OPTIONS", "PUT"} {
+								cm := c
+								cm.Method = m
+								rec.Run(t, cm, (h != nil && *h != "") || (q != nil && *q != ""), append(httpClasses(cm), "http_method_"+m), func() *Violation { return runC19HTTP(cm) })
+							}
+						}
 					}
 				}
 			}
@@ -734,7 +747,8 @@ func TestC19(t *testing.T) {
 			nt, cl := proxyClasses(c)
 			rec.Run(rt, c, nt, cl, func() *Violation { return runC19Proxy(c) })
 		default:
-			c := c19HTTPCase{VerifyErr: rapid.IntRange(0, 3).Draw(rt, "verr") == 0, Allow: genPermList(rt, "allow"), AllowNil: rapid.Bool().Draw(rt, "allownil")}
+			c := c19HTTPCase{VerifyErr: rapid.IntRange(0, 3).Draw(rt, "verr") == 0, Allow: genPermList(rt, "allow"), AllowNil: rapid.Bool().Draw(rt, "allownil"),
+				Method: rapid.SampledFrom([]string{"", "", "", "GET", "OPTIONS", "PUT", "HEAD", "DELETE"}).Draw(rt, "method")}
 			switch rapid.IntRange(0, 3).Draw(rt, "hform") {
 			case 0:
 			case 1:
